@@ -46,6 +46,14 @@ where
     result_events
 }
 
+#[cfg(geo_booleanop_verif)]
+pub fn verif_order_events<F>(sorted_events: &[Rc<SweepEvent<F>>]) -> Vec<Rc<SweepEvent<F>>>
+where
+    F: Float,
+{
+    order_events(sorted_events)
+}
+
 /// Helper function that identifies groups of sweep event that belong to one
 /// vertex, and precomputes in which order the events within one group should
 /// be iterated. The result is a vector with the semantics:
